@@ -193,6 +193,16 @@ func checkPoint(site string, kind, order int, xs []float64, par float64, k int) 
 		return fmt.Sprintf("panic kind %d on valid operands", pk)
 	}
 	val := res.GetFloat64()
+	if math.IsNaN(val) {
+		// a composite operation (LogAdd, LogSub, Log1pExp, Sigmoid, ...) whose closed form is finite and of
+		// moderate size at this point must not return NaN: "the result carries the value"
+		cs := strings.TrimSuffix(strings.TrimSuffix(site, "(alias)"), "(concrete)")
+		if f := compositeRef(cs, par); f != nil && site != "ABS(concrete)" {
+			if rv, _, _, ok := f(xs); ok && !math.IsNaN(rv) && math.Abs(rv) < 1e30 {
+				return fmt.Sprintf("value NaN, closed form %v", rv)
+			}
+		}
+	}
 	if math.IsNaN(val) || math.IsInf(val, 0) {
 		return ""
 	}
